@@ -7,7 +7,7 @@
 (* evaluated non-halting: each failure adds a record to viol, so one run   *)
 (* reports every violation of every property in every concatenated trace.  *)
 (***************************************************************************)
-EXTENDS ResObserver, CacheTrace, SubQueueTrace, ResQueueTrace, SubAccessTrace, ResSubTrace, Json, SequencesExt
+EXTENDS ResObserver, CacheTrace, SubQueueTrace, ResQueueTrace, SubAccessTrace, ResSubTrace, SubReadyTrace, Json, SequencesExt
 
 Trace == ndJsonDeserialize("trace.ndjson")
 
@@ -27,7 +27,7 @@ NewClient(lg, v111, http) ==
 InitO(tr) ==
     [tr |-> tr, conns |-> <<>>, ann |-> <<>>, norm |-> <<>>, keyn |-> <<>>,
      mqsubs |-> {}, mqpend |-> <<>>, handed |-> <<>>, window |-> {},
-     refetch |-> <<>>, ctrig |-> <<>>, resets |-> <<>>, thr |-> <<>>, stop |-> [l |-> 0, cause |-> "", open |-> {}], down |-> FALSE, hadStop |-> FALSE, final |-> FALSE, resetObl |-> {}, keyq |-> <<>>, qev |-> <<>>, ce |-> <<>>, sq |-> <<>>, rq |-> <<>>, sa |-> <<>>, rst |-> <<>>, csub |-> <<>>, refRp |-> <<>>, deadRp |-> {}]
+     refetch |-> <<>>, ctrig |-> <<>>, resets |-> <<>>, thr |-> <<>>, stop |-> [l |-> 0, cause |-> "", open |-> {}], down |-> FALSE, hadStop |-> FALSE, final |-> FALSE, resetObl |-> {}, keyq |-> <<>>, qev |-> <<>>, ce |-> <<>>, sq |-> <<>>, sr |-> <<>>, rq |-> <<>>, sa |-> <<>>, rst |-> <<>>, csub |-> <<>>, refRp |-> <<>>, deadRp |-> {}]
 
 Short(s) == IF Len(s) > 48 THEN SubSeq(s, 1, 24) \o "...(" \o ToString(Len(s)) \o " characters)" ELSE s
 
@@ -503,12 +503,21 @@ H_note1(r) ==
        ELSE b
 
 (* C03 / C06: every step of a subscription's event queue follows SubQueueOps *)
-H_note(r) ==
+H_note3(r) ==
     LET b == H_note1(r)
     IN IF r.kind \in SQTNotes /\ "sp" \in DOMAIN r /\ ~o.hadStop /\ o.stop.l = 0
        THEN LET st == SQTStep(Get(o.sq, r.sp, [x |-> SQTNew]).x, r)
             IN Res([b.o EXCEPT !.sq = Put(@, r.sp, [x |-> st.x, c |-> r.c, rid |-> r.rid])],
                    b.v \cup {V(e.p, "subscription " \o Short(r.rid) \o " of " \o r.c \o ": " \o e.m, "") : e \in st.errs})
+       ELSE b
+
+(* C07 / C02: readiness of a subscription and of everything it refers to follows SubReadyOps (per connection) *)
+H_note(r) ==
+    LET b == H_note3(r)
+    IN IF r.kind \in SRTNotes /\ "sp" \in DOMAIN r /\ "c" \in DOMAIN r /\ ~o.hadStop /\ o.stop.l = 0
+       THEN LET st == SRTStep(Get(b.o.sr, r.c, SRTNew), r)
+            IN Res([b.o EXCEPT !.sr = Put(@, r.c, st.x)],
+                   b.v \cup {V(e.p, "subscription " \o Short(r.rid) \o " of " \o r.c \o ": " \o e.m, e.kf) : e \in st.errs})
        ELSE b
 
 -----------------------------------------------------------------------------
@@ -824,6 +833,7 @@ H_quiescent(r) ==
            UNION {C01Viol(c, r) \cup C07Viol(c) \cup C08Viol(c, r) \cup C03EndViol(c, r) \cup C06EndViol(c, r) \cup C06TokViol(c, r) \cup C06TrigViol(c, r) : c \in live}
            \cup C09QViol(r) \cup C11Viol(r) \cup C19QViol
            \cup (IF o.hadStop THEN {} ELSE UNION {{V(e.p, "subscription " \o Short(o.sq[sp].rid) \o " of " \o o.sq[sp].c \o ": " \o e.m, "") : e \in SQTQuiescent(o.sq[sp].x)} : sp \in DOMAIN o.sq})
+           \cup (IF o.hadStop THEN {} ELSE UNION {{V(e.p, "connection " \o c \o ": " \o e.m, e.kf) : e \in SRTQuiescent(o.sr[c])} : c \in live \cap DOMAIN o.sr})
            \cup (IF o.hadStop THEN {} ELSE UNION {{V(e.p, "work queue of " \o Short(o.rq[ep].n) \o ": " \o e.m, "") : e \in RQQuiescent(o.rq[ep].x)} : ep \in DOMAIN o.rq})
            \cup (IF o.hadStop THEN {} ELSE UNION {{V(e.p, "cached resource " \o Short(o.rst[k].key) \o ": " \o e.m, "") : e \in RSTQuiescent(o.rst[k].x)} : k \in DOMAIN o.rst})
            \cup (IF o.hadStop THEN {}
